@@ -35,3 +35,18 @@ Theorem C10_tmax : forall (l : list St),
   end.
 Proof. exact find_tmax_spec. Qed.
 Print Assumptions C10_tmax.
+
+(* orientation by a known forward direction: the list comes back unchanged or reversed, and its first centre is then at
+   least as far along the direction as its last *)
+Theorem C10_direction_fwd : forall (dir : @V2 RNum) (l l' : list St), direction_fwd dir l = Ok l' ->
+  l <> [] /\ (l' = l \/ l' = reverse_inscribed_circles l) /\
+  forall d, dot2 dir (s_c (last l' d)) <= dot2 dir (s_c (hd d l')).
+Proof. exact direction_fwd_spec. Qed.
+Print Assumptions C10_direction_fwd.
+
+(* orientation by maximum thickness: unchanged when the largest circle sits in the first half of the camber length
+   (measured along the polyline of centres at the closest point to its centre), reversed when in the second half *)
+Theorem C10_tmax_fwd : forall (l l' : list St), tmax_fwd l = Ok l' ->
+  exists f, tmax_fraction l = Ok f /\ ((f <= 1 / 2 /\ l' = l) \/ (1 / 2 < f /\ l' = reverse_inscribed_circles l)).
+Proof. exact tmax_fwd_spec. Qed.
+Print Assumptions C10_tmax_fwd.
